@@ -448,3 +448,12 @@ func fetchItemRequested(options *imap.FetchOptions, numKind imapwire.NumKind, s 
 //@   props C02:callsite
 //@   requires options != nil
 //@   callsite Encoder.Atom(e *imapwire.Encoder, s string) requires fetchItemRequested(options, numKind, s)
+
+// LIST: reference and pattern are both mailbox names (the pattern with
+// wildcards) and both go through the mailbox encoder (modified UTF-7), never
+// straight to the string encoder.
+//
+//@ func (c *Client) List(ref, pattern string, options *imap.ListOptions) (cmd *ListCommand)
+//@   props C02:callsite
+//@   callsite Encoder.Mailbox(e *imapwire.Encoder, name string) requires name == ref || name == pattern
+//@   callsite Encoder.String(e *imapwire.Encoder, s string) requires false
